@@ -36,6 +36,18 @@ func VerifC07Slot() {
 		e.tx.Slot = int(s)
 	}
 
+	m, err := verifC07Multi(w.readers).GetBeforeUntilSlot(context.Background(), verifC07Pk, limit, before, until, w.fetcher("C07.slot"))
+	verifAssert(err == nil, "C07.slot: GetBeforeUntilSlot failed (an epoch without the address must be skipped)")
+	got := w.flatten(m, "C07.slot")
+
+	// (a1) lower bound
+	for _, e := range got {
+		verifAssert(slots[e.id-1] >= until, "C07.slot: returned a transaction with slot < until")
+	}
+	// (b) a contiguous newest-first run of the history
+	for j, e := range got {
+		verifAssert(e.id == got[0].id+j, "C07.slot: result is not a contiguous newest-first run of the history")
+	}
 	// known finding S8: the upper bound `before` is only applied per epoch, never per transaction:
 	// entries of the epoch that contains `before` with slot >= before are returned.
 	var inS8 uint64
@@ -47,20 +59,9 @@ func VerifC07Slot() {
 	}
 	gate := verifIteU64(limit > 0, verifIteU64(before >= until, 1, 0), 0)
 	verifKnownFinding("C07-S8-slot-upper-bound", verifIteU64(gate != 0, inS8, 0) != 0)
-
-	m, err := verifC07Multi(w.readers).GetBeforeUntilSlot(context.Background(), verifC07Pk, limit, before, until, w.fetcher("C07.slot"))
-	verifAssert(err == nil, "C07.slot: GetBeforeUntilSlot failed (an epoch without the address must be skipped)")
-	got := w.flatten(m, "C07.slot")
-
-	// (a) only transactions inside the requested slot range
+	// (a2) upper bound
 	for _, e := range got {
-		s := slots[e.id-1]
-		verifAssert(s < before, "C07.slot: returned a transaction with slot >= before (upper bound is exclusive)")
-		verifAssert(s >= until, "C07.slot: returned a transaction with slot < until")
-	}
-	// (b) a contiguous newest-first run of the history
-	for j, e := range got {
-		verifAssert(e.id == got[0].id+j, "C07.slot: result is not a contiguous newest-first run of the history")
+		verifAssert(slots[e.id-1] < before, "C07.slot: returned a transaction with slot >= before (upper bound is exclusive)")
 	}
 	// (c) complete up to the limit
 	var inRange uint64
